@@ -77,9 +77,9 @@ BLOCK_ASSUME = ['the EVM interpreter enters only as an execution summary (vmErr,
 
 PROPS = {
     'C04': dict(
-        lean_modules=['Model.World', 'Model.StateDB', 'Model.Block', 'Proofs.World', 'Properties.C04', 'Properties.C05', 'Facts.Block', 'Facts.TieFee', 'Facts.TieTransition', 'Facts.TieMeta'],
+        lean_modules=['Model.World', 'Model.StateDB', 'Model.Block', 'Proofs.World', 'Properties.C04', 'Properties.C05', 'Facts.Block', 'Facts.TieFee', 'Facts.TieTransition', 'Facts.TieAnteSig', 'Facts.TieMeta'],
         facts=['*'],
-        theorems=['tie_effective_fee', 'tie_refund_gas', 'tie_refund_is_model', 'fact_translated_all', 'C04_transfer_conserves', 'C04_addBalance', 'C04_subBalance', 'C04_refund_conserves', 'C04_evmModule_zero',
+        theorems=['tie_effective_fee', 'tie_refund_gas', 'tie_refund_is_model', 'tie_deduct_fee_flag', 'fact_translated_all', 'C04_transfer_conserves', 'C04_addBalance', 'C04_subBalance', 'C04_refund_conserves', 'C04_evmModule_zero',
                   'C04_supply', 'C04_sender_collector', 'C05_collector_gain', 'mintTo_effect', 'burnFrom_effect', 'sendCoins_bal',
                   'fact_balance_sites', 'fact_refund_mints', 'fact_refund_burnt_from_collector'],
         engines=[dict(name='block', test='TestEngineBlock', quick=500, thorough=6000, thorough_seeds=3),
@@ -101,7 +101,7 @@ PROPS = {
     'C06': dict(
         lean_modules=['Model.Block', 'Model.Ante', 'Properties.C05', 'Properties.C06', 'Properties.C07', 'Facts.Block', 'Facts.Ante', 'Facts.TieTransition', 'Facts.TieAnteEvm', 'Facts.TieAnteSig', 'Facts.TieMeta'],
         facts=['*'],
-        theorems=['tie_pre_check_accepts', 'tie_validate_eoa', 'tie_sig_verification', 'tie_sig_accepts', 'tie_increment_sequence', 'tie_increment_is_plus_one', 'fact_translated_all', 'fact_uninterpreted', 'C06_authorised', 'C06_seq_plus_one', 'C06_seq_unchanged', 'C06_seq_monotone', 'C06_no_replay', 'C06_seq_counts',
+        theorems=['tie_pre_check_accepts', 'tie_validate_eoa', 'tie_sig_verification', 'tie_sig_accepts', 'tie_increment_sequence', 'tie_increment_is_plus_one', 'tie_deduct_fee_flag', 'fact_translated_all', 'fact_uninterpreted', 'C06_authorised', 'C06_seq_plus_one', 'C06_seq_unchanged', 'C06_seq_monotone', 'C06_no_replay', 'C06_seq_counts',
                   'C07_handler_unreachable', 'C07_cosmos_lane', 'fact_nonce_flag_used', 'fact_ante_order', 'fact_ante_chain', 'fact_disabled_list'],
         engines=[dict(name='block', test='TestEngineBlock', quick=500, thorough=6000, thorough_seeds=3),
                  dict(name='ante', test='TestEngineAnte', quick=250, thorough=3000, thorough_seeds=2),
